@@ -3,17 +3,18 @@
 # (never touches /repo's working tree; evidence/replays go to a scratch VERIF_ROOT)
 set -u
 export GOFLAGS=-mod=mod GOPROXY=off GOSUMDB=off GOTOOLCHAIN=local
+VROOT="${VROOT:-/verif}"
 DIFF="$1"; shift
 ID=$(basename "$DIFF" .diff)
-WT=/tmp/mutrun/$ID
-rm -rf "$WT"; mkdir -p /tmp/mutrun
+WT=${MUTRUN:-/tmp/mutrun}/$ID
+rm -rf "$WT"; mkdir -p ${MUTRUN:-/tmp/mutrun}
 git -C /repo worktree add -q --detach "$WT" HEAD || exit 3
 if ! git -C "$WT" apply "$DIFF"; then echo "$ID APPLY-FAILED"; git -C /repo worktree remove --force "$WT"; exit 3; fi
-SCR=/tmp/mutrun/root-$ID
+SCR=${MUTRUN:-/tmp/mutrun}/root-$ID
 mkdir -p "$SCR"
-for d in engine bin baseline known_findings.json tools; do ln -sfn /verif/$d "$SCR/$d"; done
+for d in engine bin baseline known_findings.json tools; do ln -sfn $VROOT/$d "$SCR/$d"; done
 for P in "$@"; do
-  out=$(VERIF_REPO="$WT" VERIF_ROOT_OVERRIDE="$SCR" /verif/bin/check "$P" quick 2>&1); rc=$?
+  out=$(VERIF_REPO="$WT" VERIF_ROOT_OVERRIDE="$SCR" $VROOT/bin/check "$P" quick 2>&1); rc=$?
   nv=$(echo "$out" | grep -c '^VIOLATION')
   first=$(echo "$out" | grep -A2 '^VIOLATION' | head -3 | tr '\n' ' ' | cut -c1-420)
   echo "$ID $P rc=$rc violations=$nv :: $first"
